@@ -1209,7 +1209,7 @@ func (g *gen) fromInterface(d *Def, f *Field) bool {
 // KnownClasses are the workload classes of the known findings of C17 (known_findings.txt). General
 // projects avoid them (precisely: only the failing conjunction of schema feature and option);
 // dedicated projects inject the minimal witness of exactly one class.
-var KnownClasses = []string{"type_collision", "enum_values_bind", "exec_directive_files", "type_leading_underscore", "blank_arg", "omit_resolver_fields", "nested_list_variants", "enum_values_list", "predeclared_dir_arg", "panic_arg"}
+var KnownClasses = []string{"type_collision", "enum_values_bind", "exec_directive_files", "type_leading_underscore", "blank_arg", "omit_resolver_fields", "nested_list_variants", "enum_values_list", "predeclared_dir_arg", "panic_arg", "root_typed_field"}
 
 // KnownSignature maps a known class to its signature in known_findings.txt.
 var KnownSignature = map[string]string{
@@ -1223,6 +1223,7 @@ var KnownSignature = map[string]string{
 	"enum_values_list":        "enum-values-binding-in-nullable-element-or-nested-list",
 	"predeclared_dir_arg":     "predeclared-identifier-as-directive-argument-name",
 	"panic_arg":               "argument-named-panic-with-resolver-section",
+	"root_typed_field":        "omit-root-models-with-root-typed-field",
 }
 
 // inject appends the minimal witness of one known-finding class to the schema.
@@ -1250,6 +1251,25 @@ func (g *gen) inject() {
 			qf(fmt.Sprintf("bcKind%d", i), &Ref{Name: n}, &Arg{Name: "k", T: &Ref{Name: n}})
 		}
 		g.feat("benign_type_name_collisions")
+	}
+	if g.o.Inject == "" && g.o.Seed%4 == 1 {
+		// two generated object types that hold each other by value-typed (non-null, non-list) fields:
+		// with struct_fields_always_pointers: false modelgen has to break the cycle itself
+		add(&Def{Kind: "object", Name: "MuUser", Fields: []*Field{{Name: "mid", T: &Ref{Name: "ID", NN: true}}, {Name: "profile", T: &Ref{Name: "MuProfile", NN: true}}}})
+		add(&Def{Kind: "object", Name: "MuProfile", Fields: []*Field{{Name: "bio", T: &Ref{Name: "String"}}, {Name: "user", T: &Ref{Name: "MuUser", NN: true}}, {Name: "backup", T: &Ref{Name: "MuUser", NN: true}}}})
+		qf("muUser", &Ref{Name: "MuUser"})
+		g.feat("mutual_non_null_object_references")
+	}
+	if (g.o.Inject == "" && g.o.Seed%4 == 2 && !g.o.Avoid["root_typed_field"]) || g.o.Inject == "root_typed_field" {
+		// a non-root object with fields of the query root type (Relay-style payloads `query: Query!`);
+		// with omit_root_models: true the root has no Go model to bind such a field to and the
+		// generator dereferences a nil type reference (known finding): general projects carry the
+		// fields only where root models are generated
+		rootQ := g.s.RootNames[0]
+		add(&Def{Kind: "object", Name: "RrPayload", Fields: []*Field{{Name: "ok", T: &Ref{Name: "Boolean"}}, {Name: "query", T: &Ref{Name: rootQ, NN: true}},
+			{Name: "maybe", T: &Ref{Name: rootQ}}, {Name: "many", T: &Ref{Of: &Ref{Name: rootQ, NN: true}}}}})
+		qf("rrPayload", &Ref{Name: "RrPayload"})
+		g.feat("non_root_object_with_root_typed_fields")
 	}
 	switch g.o.Inject {
 	case "type_collision":
@@ -1290,6 +1310,8 @@ func (g *gen) inject() {
 		add(&Def{Kind: "object", Name: "KfLeaf", Impl: []string{"KfNode"}, Fields: []*Field{{Name: "kfid", T: &Ref{Name: "ID"}}}})
 		qf("kfA", &Ref{Of: &Ref{Of: &Ref{Name: "KfNode"}, NN: true}})
 		qf("kfB", &Ref{Of: &Ref{Of: &Ref{Name: "KfNode", NN: true}, NN: true}})
+	case "root_typed_field":
+		// the witness (RrPayload) was added above
 	default:
 		return
 	}
